@@ -141,7 +141,7 @@ def check_value(agg, p, tag="value"):
             if float(text) != p or (p == 0 and str(float(text))[0] != str(p)[0]):
                 bad("decimal-text-denotes-the-value", repr(p), text)
     elif k == "string":
-        if not (len(text) >= 2 and text[0] == "'" and text[-1] == "'"):
+        if not (len(text) >= 2 and text[0] in "'\"" and text[-1] == text[0]):
             bad("string-renders-quoted", "'...'", text)
         elif any(c in text[1:-1] for c in "\n\r\t"):
             bad("string-special-characters-escaped", "escaped", text)
